@@ -54,7 +54,7 @@ def weak_stubs(objs, out_c, defined_elsewhere=()):
     known_libc = {"printf", "puts", "putchar", "memcpy", "memset", "memmove", "memcmp", "strlen", "strcmp", "strncmp",
                   "strcpy", "strncpy", "snprintf", "sprintf", "vsnprintf", "vprintf", "fprintf", "vfprintf", "abort",
                   "malloc", "free", "calloc", "realloc", "stderr", "stdout", "stdin", "fputs", "fputc", "fwrite",
-                  "strchr", "strrchr", "strstr", "strtol", "strtoul", "atoi", "exit", "bcmp", "strcat", "strncat",
+                  "strchr", "strrchr", "strstr", "strtol", "strtoul", "strtoull", "strtoll", "atoi", "exit", "bcmp", "strcat", "strncat",
                   "fflush", "getchar", "read", "write", "fread", "fgets", "sscanf", "qsort", "strdup", "isprint",
                   "toupper", "tolower", "__ctype_b_loc", "__errno_location", "strerror", "time", "gettimeofday"}
     need = sorted(s for s in und - dfn if not libc_like.match(s) and s not in known_libc)
